@@ -15,6 +15,7 @@ pub fn spec(tier: Tier) -> RunSpec {
         "sections: roundtrip (1..8 parts x 1..4 headers without leading/trailing blanks x bodies of arbitrary bytes with the end classes '', CR, LF, CRLF, 'x CRLF CRLF', '--' over-represented, quick <= 2 KiB, thorough up to 64 KiB \
 x any RFC 2046 boundary of 1..70 characters - leading dashes, letters, digits, interior hyphens, punctuation - that does not occur in the data; oracle FormMultipartData::parse(generate(parts, b), b) == parts), \
 browser (the same values serialised the way browsers do: Content-Type parameter without the two leading dashes through extract_boundary, '--b' delimiters, final '--b--' CRLF), \
+decoys (roundtrip / browser cases whose bodies get 1..3 whole lines derived from the boundary that are not the delimiter and do not contain it: leading hyphens removed, one hyphen fewer, de-hyphenated, last character missing or replaced, other letter case, 'stripped--', first half, first non-hyphen character missing; as first / last / interior line or as the whole body), \
 negatives (opening delimiter removed, closing delimiter removed by truncating after the headers / inside the body / after a complete part, a part without headers -> Err), \
 echo (text parts through POST /form-multipart-enctype-post-method; each 'name is value' line compared after trimming trailing blanks). \
 Non-trivial = a body of length <= 2 or ending in CR/LF, a boundary with an interior hyphen, >= 3 parts, or a negative; distinct by case.",
@@ -74,6 +75,43 @@ fn parts_strategy(max_body: usize) -> impl Strategy<Value = Vec<PartSpec>> {
     proptest::collection::vec((proptest::collection::vec(header_strategy(), 1..=4), body_strategy(max_body)).prop_map(|(headers, body)| PartSpec { headers, body }), 1..=8)
 }
 
+/// Lines derived from the boundary that are *not* the delimiter and do not contain it: the delimiter match must be exact, so a body may
+/// hold any of them (the boundary "does not occur in the data"). kind picks the derivation, place where the line goes in the body.
+fn decoy_line(boundary: &str, kind: u8) -> Option<String> {
+    let stripped = boundary.trim_start_matches('-');
+    let lead = boundary.len() - stripped.len();
+    let d = match kind % 9 {
+        0 => stripped.to_string(),                                                    // every leading hyphen removed
+        1 => if lead >= 1 { boundary[1..].to_string() } else { return None },          // one leading hyphen fewer
+        2 => boundary.replace('-', ""),                                               // de-hyphenated altogether
+        3 => boundary[..boundary.len() - 1].to_string(),                              // last character missing
+        4 => { let mut c: Vec<char> = boundary.chars().collect(); let l = c.len() - 1; c[l] = if c[l] == 'x' { 'y' } else { 'x' }; c.into_iter().collect() } // last character replaced
+        5 => if boundary.chars().any(|c| c.is_ascii_alphabetic()) { boundary.chars().map(|c| if c.is_ascii_lowercase() { c.to_ascii_uppercase() } else { c.to_ascii_lowercase() }).collect() } else { return None }, // other letter case
+        6 => format!("{}--", stripped),                                               // looks like a closing delimiter of the stripped boundary
+        7 => if boundary.len() >= 2 { boundary[..boundary.len() / 2].to_string() } else { return None }, // first half
+        _ => if stripped.len() >= 2 { format!("{}{}", "-".repeat(lead), &stripped[1..]) } else { return None }, // first non-hyphen character missing
+    };
+    if d.is_empty() || d.contains(boundary) { None } else { Some(d) }
+}
+
+fn with_decoys(mut parts: Vec<PartSpec>, boundary: &str, decoys: &[(u16, u8, u8)]) -> Vec<PartSpec> {
+    for (which, kind, place) in decoys {
+        let Some(line) = decoy_line(boundary, *kind) else { continue };
+        let i = crate::fw::util::pick_idx(*which, parts.len());
+        let b = &mut parts[i].body.0;
+        match place % 5 {
+            0 => { let mut v = line.into_bytes(); v.extend_from_slice(b"\r\n"); v.extend_from_slice(b); *b = v; }                       // first line of the body
+            1 => { b.extend_from_slice(b"\r\n"); b.extend_from_slice(line.as_bytes()); }                                              // last line, no line break after it
+            2 => { b.extend_from_slice(b"\r\n"); b.extend_from_slice(line.as_bytes()); b.extend_from_slice(b"\r\n"); }                 // last line with line break
+            3 => { *b = line.into_bytes(); }                                                                                          // the whole body
+            _ => { b.extend_from_slice(b"\r\n"); b.extend_from_slice(line.as_bytes()); b.extend_from_slice(b"\r\ntail"); }             // interior line
+        }
+    }
+    parts
+}
+
+fn decoy_strategy() -> impl Strategy<Value = Vec<(u16, u8, u8)>> { proptest::collection::vec((any::<u16>(), 0u8..9, 0u8..5), 1..4) }
+
 fn to_parts(parts: &[PartSpec]) -> Vec<Part> {
     parts.iter().map(|p| Part { headers: p.headers.iter().map(|(n, v)| Header { name: n.clone(), value: v.clone() }).collect(), body: p.body.0.clone() }).collect()
 }
@@ -119,6 +157,7 @@ fn classes_of(parts: &[PartSpec], boundary: &str) -> (bool, Vec<&'static str>) {
     if inner { c.push("boundary-with-interior-hyphen"); }
     if parts.len() >= 3 { c.push("three-or-more-parts"); }
     if parts.iter().any(|p| p.body.0.is_empty()) { c.push("empty-body"); }
+    if (0u8..9).filter_map(|k| decoy_line(boundary, k)).any(|d| parts.iter().any(|p| p.body.0.split(|x| *x == b'\n').any(|l| l.strip_suffix(b"\r").unwrap_or(l) == d.as_bytes()))) { c.push("body-line-derived-from-boundary"); }
     (short || ends || inner || parts.len() >= 3, c)
 }
 
@@ -212,6 +251,8 @@ pub fn run(ctx: &Ctx) {
     let max_body = if ctx.quick() { 2048 } else { 65536 };
     ctx.prop("roundtrip", ctx.share(ctx.scale(24_000, 1_000_000)), (parts_strategy(max_body), boundary_strategy()).prop_map(|(parts, boundary)| Case::RoundTrip { parts, boundary }), |c| eval(ctx, c));
     ctx.prop("browser", ctx.share(ctx.scale(12_000, 500_000)), (parts_strategy(max_body), boundary_strategy()).prop_map(|(parts, boundary)| Case::Browser { parts, boundary }), |c| eval(ctx, c));
+    // near-miss delimiter lines inside bodies (the dash-insensitive match of earlier versions; any non-exact delimiter test)
+    ctx.prop("decoys", ctx.share(ctx.scale(12_000, 500_000)), (parts_strategy(128), boundary_strategy(), decoy_strategy(), any::<bool>()).prop_map(|(parts, boundary, d, browser)| { let parts = with_decoys(parts, &boundary, &d); if browser { Case::Browser { parts, boundary } } else { Case::RoundTrip { parts, boundary } } }), |c| eval(ctx, c));
     ctx.prop("negatives", ctx.share(ctx.scale(12_000, 500_000)), (parts_strategy(256), boundary_strategy(), 0u8..5, any::<u16>()).prop_map(|(parts, boundary, what, cut)| Case::Negative { parts, boundary, what, cut }), |c| eval(ctx, c));
     let fields = proptest::collection::vec(("[a-z]{1,8}", "[!-~]([ -~]{0,20}[!-~])?|"), 1..6);
     ctx.prop("echo", ctx.share(ctx.scale(6_000, 200_000)), (fields, "[A-Za-z0-9]{1,30}").prop_map(|(fields, boundary)| Case::Echo { fields, boundary }), |c| eval(ctx, c));
